@@ -103,6 +103,12 @@ func main() {
 						"note": "the same call, made first in a fresh process, returned; here it did not return (scheduler was not waiting: the task was running)"}}})
 			os.Exit(0)
 		}
+		if os.Args[1] == "run" {
+			// not inside a library call: the harness itself (oracle processes, model, tie scan) is slow on a
+			// loaded machine; the driver re-runs the spec alone with a long limit before it gives up
+			emit(&spec.Result{Status: "slow", Internal: fmt.Sprintf("harness phase exceeded %d s of wall clock", wd)})
+			os.Exit(0)
+		}
 		fmt.Fprintf(os.Stderr, "simworker: watchdog: exceeded %d s of wall clock\n", wd)
 		os.Exit(4)
 	}()
